@@ -134,6 +134,8 @@ def extras(tier, which, spelling, urikey):
             out.append((("at", PROV_OTHER_ATTR_NAME, v),))
         for v in ("s_a", "i_2", "q_exA", "l_exdt"):
             out.append((("at", XSI_ATTR_NAME, v),))
+        # ... and the same name given as a full URI string
+        out.append((("at", ("XI", "note", ("u",)), "s_a"),))
         # PROV-DM argument names as additional attributes (of record kinds that may not have that argument)
         for l in ("activity", "agent", "plan", "entity", "starter", "generation"):
             for v in ("q_exA", "q_exB"):
